@@ -36,14 +36,17 @@ Join(ts, i, rot) ==
 RECURSIVE Wrap(_, _)
 Wrap(e, mode) ==
   CASE e[1] \in {"lit", "id"} -> (IF mode = 2 THEN Par(e) ELSE e)
+    [] mode = 3 -> e
     [] e[1] = "par" -> Par(Wrap(e[2], mode))
     [] e[1] = "asg" -> Asg(e[2], IF mode >= 1 THEN Par(Wrap(e[3], mode)) ELSE Wrap(e[3], mode))
     [] e[1] = "un" -> Un(e[2], IF mode >= 1 THEN Par(Wrap(e[3], mode)) ELSE Wrap(e[3], mode))
     [] e[1] = "bin" -> Bin(e[2], IF mode >= 1 THEN Par(Wrap(e[3], mode)) ELSE Wrap(e[3], mode), IF mode >= 1 THEN Par(Wrap(e[4], mode)) ELSE Wrap(e[4], mode))
 RECURSIVE WrapSeq(_, _)
+\* mode 3: redundant parentheses around the whole expression of a statement (initialiser, printed / evaluated expression), nothing inside
+WholeExp(e, mode) == IF mode = 3 THEN Par(e) ELSE Wrap(e, mode)
 WrapStmt(s, mode) ==
-  CASE s[1] = "var" -> (IF s[3] THEN SVar(s[2], TRUE, Wrap(s[4], mode)) ELSE s)
-    [] s[1] = "print" -> SPrint(Wrap(s[4], mode)) [] s[1] = "eval" -> SEval(Wrap(s[4], mode)) [] s[1] = "expr" -> SExpr(Wrap(s[4], mode))
+  CASE s[1] = "var" -> (IF s[3] THEN SVar(s[2], TRUE, WholeExp(s[4], mode)) ELSE s)
+    [] s[1] = "print" -> SPrint(WholeExp(s[4], mode)) [] s[1] = "eval" -> SEval(WholeExp(s[4], mode)) [] s[1] = "expr" -> SExpr(WholeExp(s[4], mode))
     [] s[1] = "def" -> SDef(s[2], s[3], WrapSeq(s[4], mode))
     [] OTHER -> s
 WrapSeq(ss, mode) == IF ss = <<>> THEN <<>> ELSE <<WrapStmt(Head(ss), mode)>> \o WrapSeq(Tail(ss), mode)
@@ -67,7 +70,7 @@ Init == prog = <<>> /\ phase = 0 /\ style = [semi |-> FALSE, par |-> 0, rot |-> 
 AddItem == /\ Scope = "render" /\ phase < MaxItems /\ \E i \in Items : prog' = Append(prog, i)
            /\ phase' = phase + 1 /\ UNCHANGED <<style, body, ch>>
 PickStyle == /\ Scope = "render" /\ phase >= 1 /\ phase <= MaxItems
-             /\ \E sm \in BOOLEAN, pr \in 0..2, rt \in {0, 3, 5, 8, 11} : style' = [semi |-> sm, par |-> pr, rot |-> rt]
+             /\ \E sm \in BOOLEAN, pr \in 0..3, rt \in {0, 3, 5, 8, 11} : style' = [semi |-> sm, par |-> pr, rot |-> rt]
              /\ phase' = 100 /\ UNCHANGED <<prog, body, ch>>
 \* string bodies: units (byte sequences) so that multi-byte characters stay whole; the last one needs no escape
 Units == { <<35>>, <<59>>, <<40>>, <<41>>, <<32>>, <<9>>, <<11>>, <<12>>, <<13>>, <<194, 133>>, <<194, 160>>, <<34>>, <<92>>, <<97>> }
